@@ -210,15 +210,63 @@ func parseFloatSym(fr *frame, b []value) value {
 		}
 		return acc
 	}
-	if n <= 15 && e.decide(allDigitsExcept(-1)) {
+	// With few symbolic bytes the value is an exact table: every digit assignment is
+	// evaluated by the host's strconv.ParseFloat (no solver arithmetic at all).
+	var symPos []int
+	for i := range b {
+		if _, ok := b[i].(uint8); !ok {
+			symPos = append(symPos, i)
+		}
+	}
+	table := func(dot int) *Term {
+		buf := make([]byte, n)
+		for i := range b {
+			if c, ok := b[i].(uint8); ok {
+				buf[i] = c
+			}
+		}
+		if dot >= 0 {
+			buf[dot] = '.'
+		}
+		var pos []int
+		for _, p := range symPos {
+			if p != dot {
+				pos = append(pos, p)
+			}
+		}
+		var build func(k int) *Term
+		build = func(k int) *Term {
+			if k == len(pos) {
+				f, _ := strconv.ParseFloat(string(buf), 64)
+				return FPConst(f)
+			}
+			p := pos[k]
+			buf[p] = '9'
+			res := build(k + 1)
+			for d := byte('8'); d >= '0'; d-- {
+				buf[p] = d
+				res = Ite(Eq(bv8(b[p]), BVConst(uint64(d), 8)), build(k+1), res)
+			}
+			return res
+		}
+		return build(0)
+	}
+	useTable := len(symPos) <= 3
+	if (n <= 15 || useTable) && e.decide(allDigitsExcept(-1)) {
+		if useTable {
+			return tuple{mkVal(table(-1), types.Float64), iface{}}
+		}
 		return tuple{mkVal(FPFromInt(mant(-1), false), types.Float64), iface{}}
 	}
-	if n <= 16 {
+	if n <= 16 || useTable {
 		for j := 0; j < n; j++ {
 			dot := Eq(bv8(b[j]), BVConst('.', 8))
 			if e.decide(And(dot, allDigitsExcept(j))) {
 				if n == 1 {
 					return synErr()
+				}
+				if useTable {
+					return tuple{mkVal(table(j), types.Float64), iface{}}
 				}
 				k := n - 1 - j
 				m := FPFromInt(mant(j), false)
@@ -241,6 +289,17 @@ func parseFloatSym(fr *frame, b []value) value {
 	}
 	if e.decide(outside) {
 		return synErr()
+	}
+	// only digits and dots left, and the shapes with zero or one dot were handled above:
+	// two or more dots are a syntax error
+	if n <= 15 || useTable {
+		digitsDots := TTrue
+		for i := range b {
+			digitsDots = And(digitsDots, Or(isDigit(b[i]), Eq(bv8(b[i]), BVConst('.', 8))))
+		}
+		if e.decide(digitsDots) {
+			return synErr()
+		}
 	}
 	unsup("strconv.ParseFloat on a symbolic string of unsupported shape")
 	return nil
